@@ -114,6 +114,44 @@ def is_value_pure(fn: ast.FunctionDef, own_cache: Set[str] = frozenset()) -> boo
     return True
 
 
+def effectively_constant(mod: "ModuleFacts", name: str) -> bool:
+    """A module-level dict / list / set display that nothing in the module can change: no function stores into it, calls a mutating method on
+    it, deletes from it or rebinds it, and it never escapes (no alias, not returned, not passed to a call other than a reading builtin)."""
+    return _constant_in(mod, mod.tree, name, 0, top=True)
+
+
+def _constant_in(mod: "ModuleFacts", scope: ast.AST, name: str, depth: int, top: bool = False) -> bool:
+    READERS = {"len", "sorted", "tuple", "frozenset", "dict", "list", "set", "iter", "enumerate", "zip", "isinstance", "any", "all", "min", "max", "sum", "reversed", "next", "bool", "repr", "str"}
+    if any(w[0] == name for w in writes_in(scope, {name})):
+        return False
+    defs = 0
+    local_fns = {f.name: f for f in ast.walk(mod.tree) if isinstance(f, ast.FunctionDef)}
+    for node in ast.walk(scope):
+        if isinstance(node, ast.Global) and name in node.names:
+            return False
+        if isinstance(node, (ast.Assign, ast.AnnAssign, ast.AugAssign, ast.NamedExpr)):
+            targets = node.targets if isinstance(node, ast.Assign) else [node.target]
+            if any(isinstance(t, ast.Name) and t.id == name for t in targets):
+                defs += 1
+            val = getattr(node, "value", None)
+            if isinstance(val, ast.Name) and val.id == name:
+                return False  # alias
+        if isinstance(node, (ast.Return, ast.Yield)) and isinstance(node.value, ast.Name) and node.value.id == name:
+            return False
+        if isinstance(node, ast.Call):
+            for pos, a in [(i, x) for i, x in enumerate(node.args)] + [(k.arg, k.value) for k in node.keywords]:
+                if isinstance(a, ast.Name) and a.id == name and not (isinstance(node.func, ast.Name) and node.func.id in READERS):
+                    # handed to a function of this module: constant if that function only reads its parameter
+                    callee = local_fns.get(node.func.id) if isinstance(node.func, ast.Name) else None
+                    if callee is None or depth >= 2:
+                        return False
+                    params = [p.arg for p in callee.args.args]
+                    pname = params[pos] if isinstance(pos, int) and pos < len(params) else (pos if pos in params else None)
+                    if pname is None or not _constant_in(mod, callee, pname, depth + 1):
+                        return False
+    return defs == 1 if top else defs == 0
+
+
 def writes_in(fn: ast.AST, names: Set[str]) -> List[Tuple[str, str, int]]:
     """Mutations of module-level names inside fn: global rebinding, subscript/attribute stores, mutating method calls."""
     out = []
@@ -215,7 +253,7 @@ def main(argv: List[str]) -> int:
                                     bound.add(y.id)
                     used = {x.id for x in ast.walk(inner) if isinstance(x, ast.Name) and isinstance(x.ctx, ast.Load)}
                     free = used - bound
-                    shared = {f for f in free if f in hooks.mutable_globals}
+                    shared = {f for f in free if f in hooks.mutable_globals and not effectively_constant(hooks, f)}
                     nm = getattr(inner, "name", f"<lambda@{inner.lineno}>")
                     ob(not shared, f"frame:hook:{nm}:shared-state", f"hook {nm} reads the module-level mutable {sorted(shared)}: converters are no longer independent", hook=nm)
                     outer_mut = {f for f in free if f in local_assigned and f not in ("converter",) and not f[:1].isupper() and f not in ("structure_hooks",)}
